@@ -147,6 +147,22 @@ def bounded(pb, interp, rng, tier):
                 fail("BaseReader.dask_read", "lazy", f"{name} {rq}", type(zd.data).__name__)
             elif not np.array_equal(np.asarray(zd.data.compute()), ref[rq]) or zd.start_time != r.read(*rq).start_time:
                 fail("BaseReader.dask_read", "dask==eager", f"{name} {rq}", "differs")
+        # reads are stateless: what the caller does to a returned signal does not change later reads
+        ev += 1
+        try:
+            rq0 = seq[0]
+            first = r.read(*rq0)
+            d0 = first.data
+            if isinstance(d0, np.ndarray) and d0.flags.writeable:
+                np.multiply(d0, 0, out=d0)
+            again = np.asarray(r.read(*rq0).data)
+            if not np.array_equal(again, ref[rq0]):
+                fail("BaseReader.read", "stateless.result-modified-by-caller", f"{name} {rq0}", "a later read of the same range returns the caller's modification")
+            lazy = np.asarray(r.dask_read(*rq0).data.compute())
+            if not np.array_equal(lazy, ref[rq0]):
+                fail("BaseReader.dask_read", "stateless.result-modified-by-caller", f"{name} {rq0}", "a later lazy read returns the caller's modification")
+        except Exception as ex_:
+            fail("BaseReader.read", "stateless.result-modified-by-caller.raises", f"{name}", f"{type(ex_).__name__}: {str(ex_)[:80]}")
         # an empty read is a read: eager and lazy agree on it
         ev += 1
         try:
